@@ -625,6 +625,72 @@ func (CheckpointEngine) Execute(sc *core.Scenario, st *core.Stats) (*core.Violat
 	}
 	n := len(chunks)
 
+	// A destination that already holds the older part of the source's history (and therefore
+	// shares nodes with the checkpointed tree): the checkpoint is restored on top of it and
+	// finalized, then the older versions are pruned one by one; the restored root must stay
+	// completely readable.
+	if srcHist != nil && k.Hist.Pre > 0 && k.Version > 1 && core.NewRand(k.Hist.Seed^0x0d57).Chance(1, 2) {
+		var ov *core.Violation
+		pv, stack := core.Guard(func() {
+			d2dir := filepath.Join(base, "dstold")
+			_ = os.MkdirAll(d2dir, 0o755)
+			d2 := OpenDB(k.Dst, d2dir)
+			defer d2.Close()
+			old := buildCPSourceUpTo(ctx, d2, keys, contents, k.Version, rootType, &CPHist{Seed: k.Hist.Seed, Pre: k.Hist.Pre}, st, true)
+			if old.latest == 0 || old.latest >= k.Version {
+				return
+			}
+			where := fmt.Sprintf("%s holding versions %d..%d of the source's history, checkpoint of version %d restored on top", k.Dst, old.earliest, old.latest, k.Version)
+			if err := d2.StartMultipartInsert(k.Version); err != nil {
+				ov = cpViol("restore-over-history-failed", fmt.Sprintf("%s: StartMultipartInsert failed: %v", where, err))
+				return
+			}
+			rs, _ := checkpoint.NewRestorer(d2)
+			if err := rs.StartRestore(ctx, meta); err != nil {
+				ov = cpViol("restore-over-history-failed", fmt.Sprintf("%s: StartRestore failed: %v", where, err))
+				return
+			}
+			for i := range chunks {
+				if _, err := rs.RestoreChunk(ctx, uint64(i), bytesReader(chunks[i])); err != nil {
+					ov = cpViol("restore-over-history-failed", fmt.Sprintf("%s: honest chunk %d rejected: %v", where, i, err))
+					return
+				}
+			}
+			if err := d2.Finalize([]node.Root{root}); err != nil {
+				ov = cpViol("restore-over-history-failed", fmt.Sprintf("%s: Finalize failed: %v", where, err))
+				return
+			}
+			readBack := func(when string) *core.Violation {
+				t := mkvs.NewWithRoot(nil, d2, root)
+				err := CompareDump(ctx, t, contents)
+				t.Close()
+				if err != nil {
+					return cpViol("restored-over-history-unreadable", fmt.Sprintf("%s, %s: the finalized restored root does not read back: %v", where, when, err))
+				}
+				return nil
+			}
+			if ov = readBack("after Finalize"); ov != nil {
+				return
+			}
+			for v := old.earliest; v <= old.latest; v++ {
+				if err := d2.Prune(v); err != nil {
+					st.Inc("probe.prune_below_restored_version_refused")
+					return
+				}
+				if ov = readBack(fmt.Sprintf("after Prune(%d)", v)); ov != nil {
+					return
+				}
+			}
+			st.Inc("probe.restored_over_older_history_and_pruned_below")
+		})
+		if pv != nil {
+			return cpViol("panic", fmt.Sprintf("restore over an older history: panic: %v\n%s", pv, stack)), true
+		}
+		if ov != nil {
+			return ov, true
+		}
+	}
+
 	// Restore.
 	dstDir := filepath.Join(base, "dst")
 	_ = os.MkdirAll(dstDir, 0o755)
